@@ -79,13 +79,20 @@ def rand(rng, tier):
     return _gen_cases("RandomGenerator", rng, tier, [0, 1, 2, 5, 40])
 
 
-@scenario("artap.operators:UniformGenerator.generate#grid", bound="k in {2,3,4,7} levels, boxes with 1-3 parameters (5 parameters: k <= 3)")
+@scenario("artap.operators:UniformGenerator.generate#grid", bound="k in {2,3,4,7} levels, boxes with 1-5 parameters (5 parameters: k <= 3); every k in 2..60 for four 1-2 parameter boxes")
 def grid(rng, tier):
     import artap.operators as ops
     for box in BOXES:
         for kk in (2, 3, 4, 7):
             if len(box) >= 5 and kk > 3:
                 continue
+            g = ops.UniformGenerator(_params(box))
+            g.init(kk)
+            yield {"call": lambda self: self.generate(), "args": {"self": g}, "label": "k=%d box=%r" % (kk, box)}
+    # every level count 2..60 for one- and two-parameter boxes with awkward float steps (level counts where an accumulated or
+    # float-stepped construction drifts past / short of the upper bound)
+    for box in ([(-2.5, 5.0)], [(0.0, 1.0)], [(6.0, 10.0)], [(-1.0, 1.0), (1.0, 3.4)]):
+        for kk in range(2, 61 if len(box) == 1 or tier != "quick" else 21):
             g = ops.UniformGenerator(_params(box))
             g.init(kk)
             yield {"call": lambda self: self.generate(), "args": {"self": g}, "label": "k=%d box=%r" % (kk, box)}
